@@ -21,11 +21,13 @@ structure LangInfo where
 
 def LangInfo.publicOf (li : LangInfo) (sym : Nat) : Nat := li.publicMap.getD sym sym
 
-def fillRange (arr : Array (List Nat)) (a b : Nat) (v : List Nat) : Array (List Nat) := Id.run do
-  let mut arr := arr
-  for p in [a:min b arr.size] do
-    arr := arr.set! p v
-  return arr
+def fillN : Array (List Nat) → Nat → Nat → List Nat → Array (List Nat)
+  | arr, _, 0, _ => arr
+  | arr, p, k + 1, v => fillN (arr.setIfInBounds p v) (p + 1) k v
+
+/-- Set `arr[p] := v` for `a ≤ p < b` (clipped to the array). -/
+def fillRange (arr : Array (List Nat)) (a b : Nat) (v : List Nat) : Array (List Nat) :=
+  fillN arr a (min b arr.size - a) v
 
 mutual
   def fillTree (li : LangInfo) (t : Tree) (pos : Nat) (alias : Nat) (force : Bool) (stack : List Nat)
